@@ -50,7 +50,7 @@ func VerifC11Arbitrary() {
 	vf.Reach("returned")
 }
 
-// C11 (binding): a message encrypted under (key, id) opens exactly under the same key and id - as the receiver's
+// C11 (binding): a message encrypted under (key, id), for any id including the empty one, opens exactly under the same key and id - as the receiver's
 // current key or as the key it recorded as previous, whatever ID that previous key carries - and then yields the
 // original message.
 func VerifC11RoundTrip() {
@@ -65,13 +65,14 @@ func VerifC11RoundTrip() {
 		vf.Assume(len(recv.prevKey) == 32)
 	}
 	msg := &wrapping.BlobInfo{Ciphertext: vf.Bytes("payload", 16)}
-	ct, err := EncryptMessage(context.Background(), msg, vfKeys{id: "kid", key: k1})
+	sid := vf.String("sender-key-id", 8) // any key ID, the empty one included
+	ct, err := EncryptMessage(context.Background(), msg, vfKeys{id: sid, key: k1})
 	vf.Assert("encrypt-ok", err == nil)
 	out := new(wrapping.BlobInfo)
 	err = DecryptMessage(context.Background(), ct, recv, out)
-	same := vf.And(vf.EqBytes(k1, k2), id2 == "kid")
+	same := vf.And(vf.EqBytes(k1, k2), id2 == sid)
 	if hasPrev {
-		same = vf.Or(same, vf.And(vf.EqBytes(k1, recv.prevKey), recv.prevId == "kid"))
+		same = vf.Or(same, vf.And(vf.EqBytes(k1, recv.prevKey), recv.prevId == sid))
 	}
 	if err == nil {
 		vf.Reach("decrypted")
